@@ -3,7 +3,7 @@ defect5: a relationship path to a class marks that class as "joined"; another va
 (sub)class is then not restricted to the rows of its class any more (_restrict_other_variables_to_their_classes skips
 it), although its columns are read from the un-aliased base table. The variable silently ranges over all Bodies.
 
-Run:  cd /tmp/hunt2/C07 && PYTHONPATH=/tmp/hunt2/C07/src:/tmp/hunt2/C07 /venv/bin/python HUNT/defect5.py
+Run:  cd /tmp/hunt2/C07 && PYTHONPATH=/repo/src:/tmp/hunt2/C07 /venv/bin/python HUNT/defect5.py
 Exits non-zero when the translated statement and the in-memory evaluation disagree (the defect is present).
 """
 import importlib, os, sys, tempfile, warnings
